@@ -335,7 +335,25 @@ impl<'a> G<'a> {
             let mut fwd: Vec<usize> = labels[i + 1..].to_vec();
             fwd.extend_from_slice(exits);
             let kind = self.rng.usize(10);
-            if kind == 0 && depth > 0 && self.loopv < LOOPV.len() {
+            if kind == 0 && depth > 0 && self.loopv + 1 < LOOPV.len() && self.rng.chance(1, 4) {
+                // two loops closed by one NEXT with a list
+                let v1 = LOOPV[self.loopv].to_string();
+                let v2 = LOOPV[self.loopv + 1].to_string();
+                self.loopv += 2;
+                out.push(Line { label: labels[i], sts: vec![St::For(v1.clone(), E::N(1), E::N(self.rng.range(1, 3)), None)] });
+                let l2 = self.label();
+                out.push(Line {
+                    label: l2,
+                    sts: vec![St::For(v2.clone(), E::N(self.rng.range(0, 2)), E::N(self.rng.range(1, 3)), if self.rng.coin() { Some(E::N(1)) } else { None })],
+                });
+                let after = labels[i + 1];
+                let mut ex = vec![after];
+                ex.extend_from_slice(exits);
+                let n = self.rng.range(1, 2) as usize;
+                self.block(out, depth - 1, n, &ex, in_sub, sub_from);
+                let l = self.label();
+                out.push(Line { label: l, sts: vec![St::Next(vec![v2, v1])] });
+            } else if kind == 0 && depth > 0 && self.loopv < LOOPV.len() {
                 let v = LOOPV[self.loopv].to_string();
                 self.loopv += 1;
                 let (a, b, s) = match if self.o.frac && self.rng.chance(1, 4) { 9 } else { self.rng.usize(4) } {
@@ -1578,7 +1596,36 @@ impl<'a> M<'a> {
     }
 }
 
+/// A command typed at the prompt, as the reference interpreter understands it.
+#[derive(Clone, Debug, PartialEq)]
+pub enum Cmd {
+    /// RUN / RUN n (label)
+    Run(Option<usize>),
+    /// GOTO n typed in direct mode: no CLEAR, open frames and variables stay
+    Goto(usize),
+    Tron,
+    Troff,
+}
+
+impl Cmd {
+    pub fn text(&self, p: &Prog) -> String {
+        match self {
+            Cmd::Run(None) => "RUN".to_string(),
+            Cmd::Run(Some(l)) => format!("RUN {}", p.num(*l)),
+            Cmd::Goto(l) => format!("GOTO {}", p.num(*l)),
+            Cmd::Tron => "TRON".to_string(),
+            Cmd::Troff => "TROFF".to_string(),
+        }
+    }
+}
+
 pub fn model_run(p: &Prog, max_steps: u64) -> ModelRun {
+    model_session(p, &[Cmd::Run(None)], max_steps).pop().unwrap()
+}
+
+/// Runs a sequence of commands on one reference machine; one ModelRun (with the output of that
+/// command only) per command. Stops after a run the model does not specify.
+pub fn model_session(p: &Prog, cmds: &[Cmd], max_steps: u64) -> Vec<ModelRun> {
     let mut m = M {
         p,
         vars: BTreeMap::new(),
@@ -1606,60 +1653,104 @@ pub fn model_run(p: &Prog, max_steps: u64) -> ModelRun {
         }
     }
     m.pair_whiles();
-    let mut pos = Pos { line: 0, path: vec![], idx: 0 };
-    let mut steps = 0u64;
-    let end = loop {
-        if pos.line >= p.lines.len() {
-            break End::Normal;
-        }
-        let sts = m.sts_at(&pos);
-        if pos.idx >= sts.len() {
-            // end of a statement list: both IF arms run to the end of the line
-            pos = m.start_of(pos.line + 1);
-            continue;
-        }
-        steps += 1;
-        if steps > max_steps {
-            break End::Unspec("steps");
-        }
-        let st = sts[pos.idx].clone();
-        m.max_depth = m.max_depth.max(m.stack.len());
-        match m.exec(&pos, &st) {
-            Ok(Flow::Next) => pos = m.after(&pos),
-            Ok(Flow::Jump(t)) => pos = t,
-            Ok(Flow::Finish(e)) => break e,
-            Err(e) => break e,
-        }
-    };
-    // terminating condition as the terminal shows it
-    match &end {
-        End::Normal => {
-            if m.col != 0 {
-                m.emit("\n");
+    let mut runs = vec![];
+    for cmd in cmds {
+        m.out.clear();
+        m.col = 0;
+        m.kinds.clear();
+        m.shape_log.clear();
+        // a direct line is not a program line: the trace starts afresh
+        m.traced = None;
+        let start = match cmd {
+            Cmd::Tron => {
+                m.tron = true;
+                None
             }
-        }
-        End::Break(l) => {
-            if m.col != 0 {
-                m.emit("\n");
+            Cmd::Troff => {
+                m.tron = false;
+                None
             }
-            m.emit(&format!("?BREAK IN {}\n", l));
-        }
-        End::Error(name, l) => {
-            if m.col != 0 {
-                m.emit("\n");
+            Cmd::Run(l) => {
+                // RUN = CLEAR + GOTO
+                m.vars.clear();
+                m.stack.clear();
+                m.fns.clear();
+                m.dpos = 0;
+                Some(match l {
+                    None => 0,
+                    Some(l) => match m.line_of(*l) {
+                        Some(i) => i,
+                        None => p.lines.len(),
+                    },
+                })
             }
-            m.emit(&format!("?{} IN {}\n", name, l));
+            Cmd::Goto(l) => Some(m.line_of(*l).unwrap_or(p.lines.len())),
+        };
+        let mut steps = 0u64;
+        let end = match start {
+            None => End::Normal,
+            Some(line) => {
+                let mut pos = Pos { line, path: vec![], idx: 0 };
+                loop {
+                    if pos.line >= p.lines.len() {
+                        break End::Normal;
+                    }
+                    let sts = m.sts_at(&pos);
+                    if pos.idx >= sts.len() {
+                        // end of a statement list: both IF arms run to the end of the line
+                        pos = m.start_of(pos.line + 1);
+                        continue;
+                    }
+                    steps += 1;
+                    if steps > max_steps {
+                        break End::Unspec("steps");
+                    }
+                    let st = sts[pos.idx].clone();
+                    m.max_depth = m.max_depth.max(m.stack.len());
+                    match m.exec(&pos, &st) {
+                        Ok(Flow::Next) => pos = m.after(&pos),
+                        Ok(Flow::Jump(t)) => pos = t,
+                        Ok(Flow::Finish(e)) => break e,
+                        Err(e) => break e,
+                    }
+                }
+            }
+        };
+        // terminating condition as the terminal shows it
+        match &end {
+            End::Normal => {
+                if m.col != 0 {
+                    m.emit("\n");
+                }
+            }
+            End::Break(l) => {
+                if m.col != 0 {
+                    m.emit("\n");
+                }
+                m.emit(&format!("?BREAK IN {}\n", l));
+            }
+            End::Error(name, l) => {
+                if m.col != 0 {
+                    m.emit("\n");
+                }
+                m.emit(&format!("?{} IN {}\n", name, l));
+            }
+            End::Unspec(_) => {}
         }
-        End::Unspec(_) => {}
+        m.emit("READY.\n<STOPPED>");
+        let unspec = matches!(end, End::Unspec(_));
+        runs.push(ModelRun {
+            out: m.out.clone(),
+            end,
+            steps,
+            kinds: m.kinds.iter().copied().collect(),
+            vars: m.vars.clone(),
+            max_depth: m.max_depth,
+            shape_log: m.shape_log.clone(),
+        });
+        if unspec {
+            break;
+        }
     }
-    m.emit("READY.\n<STOPPED>");
-    ModelRun {
-        out: m.out,
-        end,
-        steps,
-        kinds: m.kinds.into_iter().collect(),
-        vars: m.vars,
-        max_depth: m.max_depth,
-        shape_log: m.shape_log,
-    }
+    runs
 }
